@@ -606,6 +606,7 @@ def run_entry(owner_name, owner, name, f, argtypes, ret):
         except KeyError:
             pass
     supported = True
+    plain_ok = {}
     for kinds in combos:
         kk = "".join("m" if k == "masked" else "p" for k, t in zip(kinds, argtypes) if is_a1(t))
         for n in LENGTHS:
@@ -633,6 +634,27 @@ def run_entry(owner_name, owner, name, f, argtypes, ret):
                     return
                 base = ("raise", tn, [snap(v) for v in vals])
                 res = None
+                # "for every combination of array, scalar and masked-reference arguments": a call that works with plain arrays
+                # must also work when the same elements arrive through masked references of the same length
+                if plain_ok.get(n) and "m" in kk:
+                    # decided on the SAME elements: the masked references are copied element by element into plain arrays
+                    try:
+                        dense = build_args(key, argtypes, n, kinds, ctx)
+                        for j in a1pos:
+                            if kinds[j] == "masked":
+                                cp = type(dense[j])(len(dense[j]))
+                                for q in range(len(dense[j])):
+                                    cp[q] = dense[j][q]
+                                dense[j] = cp
+                        call(f, owner_name, name, dense)
+                        dense_ok = True
+                    except Exception:
+                        dense_ok = False
+                    R.cls("masked_call_raised_rechecked_with_dense_copies")
+                    if dense_ok:
+                        R.fail("kinds:%s.%s:raises_with_masked_arguments_only" % (owner_name, name), sig=sigtxt, kinds=kk, n=n, exc=tn, msg=str(e)[:200])
+            if kk == "p" * len(kk):
+                plain_ok[n] = base[0] == "ok"
             R.ev()
             R.cls("entry_calls")
             R.extra.setdefault("entry_points", {})
